@@ -77,10 +77,39 @@ pub fn ll_variants(text: &str) -> Vec<(&'static str, ll::Relations)> {
     out.push(("edited with set_version", edited));
     out
 }
+/// ll_variants plus the field parsed from text that carries empty entries (used by C12 only; C13 has its own clause for
+/// empty entries)
+fn ll_variants_all(text: &str) -> Vec<(&'static str, ll::Relations)> {
+    let mut out = ll_variants(text);
+    for (how, t) in with_empty_entries(text) {
+        if let Ok(r) = ll::Relations::from_str(&t) {
+            out.push((how, r));
+        }
+    }
+    out
+}
+/// the same field with an empty entry (what a substitution variable that expands to nothing leaves behind) in front,
+/// between every two entries, and behind
+fn with_empty_entries(text: &str) -> Vec<(&'static str, String)> {
+    if text.trim().is_empty() {
+        return vec![];
+    }
+    let mut v = vec![("parsed, with an empty entry in front", format!(", {}", text)), ("parsed, with an empty entry behind", format!("{}, ,", text))];
+    if text.contains(',') {
+        v.push(("parsed, with an empty entry between every two entries", text.replace(',', ", ,")));
+    }
+    v
+}
 fn ly_variants(text: &str) -> Vec<(&'static str, ly::Relations)> {
     let parsed = ly::Relations::from_str(text).unwrap();
     let conv = ly::Relations(ll::Relations::from_str(text).unwrap().entries().map(|e| e.relations().map(ly::Relation::from).collect()).collect());
-    vec![("parsed", parsed), ("converted from the lossless tree", conv)]
+    let mut out = vec![("parsed", parsed), ("converted from the lossless tree", conv)];
+    for (how, t) in with_empty_entries(text) {
+        if let Ok(r) = ly::Relations::from_str(&t) {
+            out.push((how, r));
+        }
+    }
+    out
 }
 
 fn check_cell(op: usize, req: usize, inst: usize) -> Vec<Viol> {
@@ -117,7 +146,7 @@ fn check_cell(op: usize, req: usize, inst: usize) -> Vec<Viol> {
         }
     }
     // lossless, on trees of every provenance
-    for (how, rels) in ll_variants(&text) {
+    for (how, rels) in ll_variants_all(&text) {
         let got = rels.satisfied_by(closure);
         if got != want {
             out.push(viol("lossless-relations", ctx(&format!("lossless Relations::satisfied_by(closure) on the field {}", how), got)));
@@ -165,7 +194,7 @@ fn check_same(alts: &[(usize, usize)], inst: usize) -> Vec<Viol> {
     );
     let want = alts.iter().any(|(op, req)| reference_cell(*op, *req, inst_idx));
     let closure = |name: &str| -> Option<Version> { map.get(name).cloned() };
-    for (how, r) in ll_variants(&text) {
+    for (how, r) in ll_variants_all(&text) {
         let got_ll = r.satisfied_by(closure);
         if got_ll != want {
             out.push(viol("lossless-same-package-alternatives", format!("field {:?} ({}) with pkg at {:?}: lossless says {}, expected {}", text, how, POOL.get(inst), got_ll, want)));
@@ -193,7 +222,7 @@ fn check_shared(entries: &[Vec<u8>], installed: u8) -> Vec<Viol> {
     let sat = |a: &u8| installed & (1 << *a) != 0;
     let want = entries.iter().all(|e| e.iter().any(sat));
     let closure = |name: &str| -> Option<Version> { map.get(name).cloned() };
-    for (how, r) in ll_variants(&text) {
+    for (how, r) in ll_variants_all(&text) {
         let got = r.satisfied_by(closure);
         if got != want {
             out.push(viol("lossless-shared-packages", format!("field {:?} ({}) with installed mask {:03b}: lossless says {}, expected {}", text, how, installed, got, want)));
@@ -232,7 +261,7 @@ fn check_nest(entries: &[Vec<u8>]) -> Vec<Viol> {
     let text = parts.join(", ");
     let want = entries.iter().all(|alts| alts.iter().any(|s| *s == 0));
     let closure = |name: &str| -> Option<Version> { map.get(name).cloned() };
-    for (how, r) in ll_variants(&text) {
+    for (how, r) in ll_variants_all(&text) {
         let got_ll = r.satisfied_by(closure);
         if got_ll != want {
             out.push(viol("lossless-and-or", format!("field {:?} ({}) statuses {:?}: lossless says {}, expected {}", text, how, entries, got_ll, want)));
